@@ -5,6 +5,7 @@ import (
 	"fmt"
 	"math/big"
 	"os"
+	"runtime"
 	"strconv"
 	"strings"
 	"testing"
@@ -125,21 +126,40 @@ const (
 )
 
 // guarded evaluates src and turns a format call that does not return into a violation (the process
-// exits: a runaway control loop inside slip appends to its buffer for ever).
+// exits: a runaway control loop inside slip appends to its buffer for ever). The clock is only a
+// watchdog: a call counts as hanging when it is still running after 20 s observed in at least 40
+// separate wake-ups of the watchdog (so a stalled process is not mistaken for a hang), or when the
+// heap has grown by more than 3 GB during the call.
 func guarded(sub string, c Case, scope *slip.Scope, src string) ev.Outcome {
 	done := make(chan ev.Outcome, 1)
 	go func() { done <- ev.Eval(scope, src) }()
-	tm := time.NewTimer(2 * time.Second)
-	defer tm.Stop()
 	select {
 	case o := <-done:
 		return o
-	case <-tm.C:
-		h.Violate(sub, c, c.String()+": format does not return (2 s)")
-		h.Flush()
-		os.Exit(1)
+	case <-time.After(200 * time.Millisecond):
 	}
-	panic("unreachable")
+	var m0, m runtime.MemStats
+	runtime.ReadMemStats(&m0)
+	tick := time.NewTicker(500 * time.Millisecond)
+	defer tick.Stop()
+	for wakes := 0; ; wakes++ {
+		select {
+		case o := <-done:
+			return o
+		case <-tick.C:
+		}
+		runtime.ReadMemStats(&m)
+		if wakes >= 40 || (m.HeapAlloc > m0.HeapAlloc && m.HeapAlloc-m0.HeapAlloc > 3<<30) {
+			select {
+			case o := <-done:
+				return o
+			default:
+			}
+			h.Violate(sub, c, c.String()+": format does not return")
+			h.Flush()
+			os.Exit(1)
+		}
+	}
 }
 
 func runAs(sub string) func(Case) *h.Result {
